@@ -3,7 +3,7 @@
    The clause "every violation-free history with all paths ended decodes to that history"
    is the round-trip theorem of C01 (props/C01.v). *)
 From Coq Require Import ZArith Bool List.
-From IVG Require Import SF NumCodec Color Calls Decoder Encoder EncAutomaton EncProofs RoundTrip MetaRT.
+From IVG Require Import SF NumCodec Color Calls Decoder Encoder EncAutomaton EncProofs RoundTrip MetaRT VbMono.
 Import ListNotations.
 Local Open Scope Z_scope.
 
@@ -48,13 +48,13 @@ Proof. exact EncProofs.bytes_idempotent. Qed.
 Print Assumptions bytes_idempotent.
 
 (* every violation-free history (wf_acts: the protocol, adjustments <= 6, incrementing forms with adjustment 0)
-   after a Reset with a viewBox valid as written yields a stream the decoder accepts and that decodes to that
+   after a Reset with a finite valid viewBox yields a stream the decoder accepts and that decodes to that
    history, each number in its written-and-read-back form (the C01 round trip) *)
 Theorem accepted_history_decodes : forall e0 vb pal body,
-  wf_vb vb -> viewbox_invalid (qvb vb) = false -> wf_pal pal -> wf_acts false body ->
+  wf_vb vb -> viewbox_invalid vb = false -> wf_pal pal -> wf_acts false body ->
   exists b, snd (enc_bytes (fst (enc_run e0 (ACall (CReset vb pal) :: body)))) = BytesOk b /\
             decode_calls [] b = (CReset (m_vb (meta_of vb pal)) pal :: expect false false body, Done).
-Proof. exact MetaRT.encode_decode. Qed.
+Proof. exact VbMono.encode_decode_valid. Qed.
 Print Assumptions accepted_history_decodes.
 
 (* non-vacuity *)
